@@ -195,6 +195,9 @@ class CHECK(Check):
                     l = list_objs[op[1]]
                     if op[2] < len(l):
                         l[op[2]] = fl.py_value(op[3])
+                    # a setter that changes nothing: lists handed out earlier must not be what the Line reloads its fields from
+                    for lo in line_objs:
+                        lo.storage = lo.storage
                 elif t == 5:
                     line_objs[op[1]].fields[op[2]].value = fl.py_value(op[3])
                 elif t == 6:
@@ -241,7 +244,8 @@ class CHECK(Check):
                           "files": fobs,
                           "reg_lists": [list_ids[id(r.data)] for r in regs],
                           "result_lists": [list_ids[id(res)] for res in results],
-                          "file_conts": [cont_ids[id(f.data)] for f in files]})
+                          "file_conts": [cont_ids[id(f.data)] for f in files],
+                          "line_fields": [[fl.canon_value(f.value) for f in lo.fields] for lo in line_objs]})
         return trace
 
     def impl(self, case):
@@ -338,13 +342,14 @@ class CHECK(Check):
         out = []
         for step in res:
             o, w = step
-            regs, results, files, rl, resl, fc = w
+            regs, results, files, rl, resl, fc, lf = w
             # the model's heaps start with the as-found shared container 0 / element 0; renumber files' containers and
             # elements by first appearance like the harness does (ids from 1)
             out.append({"out": None if o == [-1] else fl.ostr(o),
                         "regs": [[fl.canon_model_value(v) for v in r] for r in regs],
                         "results": [[fl.canon_model_value(v) for v in r] for r in results],
-                        "files": files, "reg_lists": rl, "result_lists": resl, "file_conts": fc})
+                        "files": files, "reg_lists": rl, "result_lists": resl, "file_conts": fc,
+                        "line_fields": [[fl.canon_model_value(v) for v in l] for l in lf]})
         return out
 
     @staticmethod
